@@ -101,4 +101,42 @@ theorem fetchDocumentIndicator_unwinds (t : TokenType) (s : Sc) (hw : WFInd s.in
       | err e => simp [modS, hsk]
       | panic p => simp [modS, hsk]
 
+/-- **The end of the stream closes every open block level** too: after `fetch_stream_end` the indentation is −1,
+    the indent stack is empty, and the tokens appended are one `BlockEnd` per level that owed one, then `StreamEnd`. -/
+theorem fetchStreamEnd_unwinds (s : Sc) (hw : WFInd s.indent s.indents) (hfl : s.flowLevel = 0) :
+    match fetchStreamEnd s with
+    | .ok (_, s') => s'.indent = -1 ∧ s'.indents = [] ∧
+        ∃ m, s'.tokens = s.tokens ++ blockEnds m s.indents ++ [⟨Span.empty m, .streamEnd⟩]
+    | _ => True := by
+  unfold fetchStreamEnd
+  simp only [Bind.bind, modS, getS]
+  generalize hs1 : (if (s.mark.col != 0) = true then ({ s with mark := ⟨s.mark.index, s.mark.line + 1, 0⟩ } : Sc) else s) = s1
+  have h1 : s1.indent = s.indent ∧ s1.indents = s.indents ∧ s1.flowLevel = s.flowLevel ∧ s1.tokens = s.tokens := by
+    rw [← hs1]; split <;> exact ⟨rfl, rfl, rfl, rfl⟩
+  by_cases hany : (s1.simpleKeys.any fun sk => sk.required && sk.possible) = true
+  · simp [hany, err, throwE]
+  · simp only [hany, Bool.false_eq_true, ↓reduceIte, Pure.pure]
+    have hw2 : WFInd (clearPossibleKeys s1).indent (clearPossibleKeys s1).indents := by
+      show WFInd s1.indent s1.indents
+      rw [h1.1, h1.2.1]; exact hw
+    have hfl2 : (clearPossibleKeys s1).flowLevel = 0 := by
+      show s1.flowLevel = 0
+      rw [h1.2.2.1]; exact hfl
+    rw [unrollIndent_all _ hw2 hfl2]
+    simp only
+    unfold removeSimpleKey disallowSimpleKey
+    simp only [Bind.bind, getS, getMark, modS, pushTok]
+    cases hk : (clearPossibleKeys s1).simpleKeys with
+    | nil => simp [panicAt, hk]
+    | cons k ks =>
+      simp only [hk]
+      by_cases hkr : (k.possible && k.required) = true
+      · simp [hkr, err, throwE]
+      · simp only [hkr, Bool.false_eq_true, ↓reduceIte, modS]
+        refine ⟨trivial, trivial, (clearPossibleKeys s1).mark, ?_⟩
+        show (clearPossibleKeys s1).tokens ++ blockEnds (clearPossibleKeys s1).mark (clearPossibleKeys s1).indents ++ _ = _
+        have e1 : (clearPossibleKeys s1).tokens = s.tokens := h1.2.2.2
+        have e2 : (clearPossibleKeys s1).indents = s.indents := h1.2.1
+        rw [e1, e2]
+
 end SaphyrModel.Sc
